@@ -51,7 +51,7 @@ def draw_gmm(n, loc, scale, pvals, random_state=None) -> Tuple[np.ndarray, np.nd
     if K != scale.shape[0]:
         raise ValueError("The means and the covariances do not contain the same number of components")
     if d!=1:
-        if d != scale.shape[1] or d != scale.shape[2]:
+        if scale.ndim != 3 or d != scale.shape[1] or d != scale.shape[2]:
             raise ValueError("The covariances should be square matrices")
     if K != pvals.shape[0]:
         raise ValueError("The proportions and the means do not contain the same number of components")
